@@ -85,7 +85,8 @@ Deletes(s) == IF s.cont = "dict" THEN {F("value", s.id, "delete", "", 0, 0, "")}
 \* The option dimension: every entry point can be run with its caches off (caching=False / disable_caching=True),
 \* which changes what a cycle guard can rely on (getobj then returns a fresh object on every request).  Every fault
 \* that closes a cycle is enumerated twice: mode "" (caches on, the default) and mode "nocache".
-CycleKinds == {"ref_self", "ref_loop1", "ref_loop2", "off_self", "off_cycle", "off_self_ws", "off_cycle_ws", "ent_in_self"}
+CycleKinds == {"ref_self", "ref_loop1", "ref_loop2", "off_self", "off_cycle", "off_self_ws", "off_cycle_ws", "ent_in_self",
+               "ent_in_cycle2"}
 \* (a seed may opt out: with the caches off every lookup in an object stream re-reads the stream - by design - so for the
 \* seed with hundreds of members in one stream the work bound is claimed with the caches on only)
 Modes(k, a) == IF k \in CycleKinds /\ a.nocache THEN {"", "nocache"} ELSE {""}
@@ -137,7 +138,9 @@ FileFaults(S) == {F("file", "", "truncate", "", 0, p, "") : p \in Positions(S.fl
 
 \* ------------------------------------------------------------------ cross-reference entries
 EntKinds(e) == {"ent_dangling", "ent_other", "ent_mid", "ent_free"} \cup
-               (IF e.form = "stream" THEN {"ent_in_self", "ent_in_missing", "ent_in_nonstream", "ent_idx_big"} ELSE {})
+               (IF e.form = "stream" THEN {"ent_in_self", "ent_in_cycle2", "ent_in_missing", "ent_in_nonstream", "ent_idx_big"} ELSE {})
+\* ent_in_cycle2: the entry says "stored in object stream m" and m's entry says "stored in this object" (m another object
+\* stream when the document has one): a containment cycle of length two, which a guard on the parse branch alone misses
 EntFaults(e) == UNION {{F("xrefent", e.id, k, "", 0, 0, m) : m \in Modes(k, e)} : k \in EntKinds(e)}
 
 \* ------------------------------------------------------------------ anchors: where a fault can sit
@@ -181,7 +184,7 @@ ExpectedAt(a) ==
     [] a.t = "stream" -> 3 * NPos(a.n, PayloadStride)
                          + Cardinality({p \in 0..(Min2(a.hdr, a.n) - 1) : p \notin Positions(a.n, PayloadStride)})
                          + 3 * Cardinality(a.fields)
-    [] a.t = "ent"    -> IF a.form = "stream" THEN (IF a.nocache THEN 9 ELSE 8) ELSE 4
+    [] a.t = "ent"    -> IF a.form = "stream" THEN (IF a.nocache THEN 11 ELSE 9) ELSE 4
     [] a.t = "file"   -> NPos(a.n, Max2(FileStride, a.hdr)) + (IF a.nocache THEN 2 ELSE 1)
 \* faults at different anchors differ in their site / class fields, so the space is the disjoint union over anchors
 ExpectedCount(S) == FoldSet(LAMBDA a, n : n + ExpectedAt(a), 0, Anchors(S))
